@@ -51,7 +51,7 @@ IMPORTANT - earlier attempts. Other people already produced the following change
 {own}
 Mechanisms already used for neighbouring properties (avoid these too):
 {nb}
-This is the third round, so the obvious places are taken. Look where nobody has looked yet: the less central files on the list above, the data access layers (Go reflection vs JSON facts), rarely used operand kinds and assignment forms, behaviour after an error or a rejected input, interactions of two operations that are each fine alone (remove then store, build twice, fetch then execute, clone then add), boundary values, helper functions shared by several callers, and invariants that a "tidy-up" of duplicated code would silently change.
+This is a late round (several rounds of such changes were made before), so the obvious places are taken. Code that changed recently in this repository (see git log) is fair game too. Look where nobody has looked yet: the less central files on the list above, the data access layers (Go reflection vs JSON facts), rarely used operand kinds and assignment forms, behaviour after an error or a rejected input, interactions of two operations that are each fine alone (remove then store, build twice, fetch then execute, clone then add), boundary values, helper functions shared by several callers, and invariants that a "tidy-up" of duplicated code would silently change.
 '''
 for p in props:
     pid = p['id']
